@@ -12,17 +12,27 @@ git checkout -q --detach $(git -C /repo rev-parse HEAD)
 if ! git apply "$D/patch.diff"; then echo "PATCH DOES NOT APPLY" | tee -a "$L"; exit 1; fi
 # demonstration: a tests/*.rs file if present
 DEMO=$(ls "$D"/*.rs 2>/dev/null | head -1)
-if [ -n "$DEMO" ]; then cp "$DEMO" tests/seeded_demo.rs; fi
+# demos of sub-crates (cargo test -p egglog-xxx --test seeded_demo) live in that crate's tests/ directory
+PKG=$(grep -oh -- "-p egglog-[a-z-]*" "$D"/demo.md "$D"/meta.json 2>/dev/null | head -1 | awk '{print $2}')
+TDIR=tests; PFLAG=""
+case "$PKG" in
+  egglog-core-relations) TDIR=core-relations/tests; PFLAG="-p egglog-core-relations";;
+  egglog-union-find) TDIR=union-find/tests; PFLAG="-p egglog-union-find";;
+  egglog-concurrency) TDIR=concurrency/tests; PFLAG="-p egglog-concurrency";;
+  egglog-bridge) TDIR=egglog-bridge/tests; PFLAG="-p egglog-bridge";;
+esac
+mkdir -p $TDIR
+if [ -n "$DEMO" ]; then cp "$DEMO" $TDIR/seeded_demo.rs; fi
 echo "== with patch: demo" | tee -a "$L"
-if [ -n "$DEMO" ]; then cargo test --offline --test seeded_demo 2>&1 | grep -E "^test |test result|error" | tail -15 | tee -a "$L"; fi
+if [ -n "$DEMO" ]; then cargo test --offline $PFLAG --test seeded_demo 2>&1 | grep -E "^test |test result|error" | tail -15 | tee -a "$L"; fi
 if [ "${SKIP_SUITE:-0}" != "1" ]; then
   echo "== with patch: suite" | tee -a "$L"
-  rm -f tests/seeded_demo.rs
+  rm -f $TDIR/seeded_demo.rs
   cargo nextest run --workspace --no-fail-fast --test-threads ${TT:-12} --offline -E 'not (test(/eqsolve.*proof_testing/) | test(/stresstest_large_expr/))' 2>&1 | grep -E "Summary|FAIL|TIMEOUT" | sort | uniq | tail -12 | tee -a "$L"
-  if [ -n "$DEMO" ]; then cp "$DEMO" tests/seeded_demo.rs; fi
+  if [ -n "$DEMO" ]; then cp "$DEMO" $TDIR/seeded_demo.rs; fi
 fi
 git checkout -q -- . 
 echo "== without patch: demo" | tee -a "$L"
-if [ -n "$DEMO" ]; then cargo test --offline --test seeded_demo 2>&1 | grep -E "^test |test result|error" | tail -15 | tee -a "$L"; fi
-rm -f tests/seeded_demo.rs
+if [ -n "$DEMO" ]; then cargo test --offline $PFLAG --test seeded_demo 2>&1 | grep -E "^test |test result|error" | tail -15 | tee -a "$L"; fi
+rm -f $TDIR/seeded_demo.rs
 git checkout -q -- . 
